@@ -35,3 +35,9 @@ claim('C05', 'exploration', 'metamorphic print->parse->print relations between e
       'newlines); the printed text must be accepted by a fresh context of the same schema and give an equal tree, the second print must equal the first (annotations off) and the third the second. '
       'Both sides of every comparison are the library itself, so the oracle cannot be stricter than the code; randomised exploration is the level because the state space is unbounded.',
       'Trusts: the tree comparison (strings bytewise, ints/bools exact, floats after %f); states excluded by the statement are not generated (functions, pointers, deprecated, NULL list strings, removed single sections).')
+
+claim('C19', 'exploration', 'structural scan of the printed text against the tree walk plus self-similarity (section body == print of that section) and callback-differential relations on real executions (ASan+UBSan build)',
+      'For random schemas/states, filters (name-hash predicates) at random subsets of section instances and print callbacks on random options, the output of cfg_print is scanned into '
+      '(depth, name) records and compared with the options the effective filter accepts - exactly once, declaration order, right depth, unset scalars commented; every sampled section body '
+      'must equal cfg_print_indent of that instance under the effective filter; callbacks may change only their own option\'s value text. Random exploration of schemas x filter placements is the fitting level.',
+      'Trusts: the line scanner (values are drawn from an alphabet that keeps one record per line); the effective-filter rule (own, else nearest ancestor) is taken from the statement.')
